@@ -15,6 +15,18 @@ mod sk;
 mod tracker;
 mod util;
 
+/// accepts every record and formats it (so that the arguments of the crate's log lines are evaluated), prints nothing
+struct NullLogger;
+impl log::Log for NullLogger {
+    fn enabled(&self, _: &log::Metadata) -> bool {
+        true
+    }
+    fn log(&self, record: &log::Record) {
+        let _ = format!("{}", record.args());
+    }
+    fn flush(&self) {}
+}
+
 fn main() {
     let args: Vec<String> = std::env::args().collect();
     if args.len() < 2 {
@@ -24,6 +36,11 @@ fn main() {
     let rest = &args[2..];
     util::set_cmd(args[1..].join(" "));
     util::watchdog_start();
+    if std::env::var("VERIF_TRACE").is_ok() {
+        static NULL_LOGGER: NullLogger = NullLogger;
+        let _ = log::set_logger(&NULL_LOGGER);
+        log::set_max_level(log::LevelFilter::Trace);
+    }
     match args[1].as_str() {
         "invhash-vectors" => invhash::vectors(rest),
         "invhash-search" => invhash::search(rest),
